@@ -46,6 +46,11 @@ CHECKS = {
          'Held on N generated programs + the directed families: the interpreter outcome (value, GlyphLang error, or status response) equalled the reference evaluator outcome, and repeated runs agreed. Exploration: programs are an unbounded space; the reference evaluator is the input-independent oracle.',
          'Trusts the reference evaluator (harness/ref/eval.go, rules listed in DESIGN appendix A, a few calibrated on the unchanged tree) and the printer. Constructs outside the generated fragment are not covered; cases the reference does not define (for over objects, == on compound values with floats) are discarded and counted.',
          'DESIGN.md §3 C01, appendix A'),
+ 'C02': ('translation_validation',
+         'differential monitor at the HTTP boundary: the same generated module served by the CLI wiring in compiled (VM) and interpreted mode, (status, decoded body, connection fate) compared per request; request-binding parity workload; directed probes for quarantined constructs',
+         'Held on N generated routes (core fragment) plus a request-binding workload: both execution modes gave the same status, decoded body and connection fate. Every disagreement is checked against the recorded findings by signature; the recorded ones are listed as KNOWN-FINDING, anything else is a violation.',
+         'Trusts the overlay worker wiring and the JSON-level comparison. The core fragment excludes 11 constructs on which the engines are known to differ (recorded findings, each replayed by a directed probe); 5xx bodies are compared as generic.',
+         'DESIGN.md §3 C02'),
 }
 NA = {}
 for p in props:
